@@ -699,90 +699,110 @@ func ruleAppendFresh(r *core.Run, prop string) {
 func ruleAccumScope(r *core.Run, id string, fnNames ...string) {
 	n := 0
 	for _, name := range fnNames {
-		f := r.Func(id, name)
-		if f == nil {
+		anchor := r.Func(id, name)
+		if anchor == nil {
 			continue
 		}
-		loops := cfgx.Loops(f)
-		res := r.Resolver(f)
 		cnt := 0
-		for _, b := range f.Blocks {
-			for _, ins := range b.Instrs {
-				st, ok := ins.(*ssa.Store)
-				if !ok {
-					continue
-				}
-				fa, ok := st.Addr.(*ssa.FieldAddr)
-				if !ok {
-					continue
-				}
-				call, ok := st.Val.(*ssa.Call)
-				if !ok {
-					continue
-				}
-				cn, _ := res.CalleeName(&call.Call)
-				if !strings.HasSuffix(cn, ".Add") && !strings.HasSuffix(cn, ".AddAmount") && !strings.HasSuffix(cn, ".Sub") && !strings.HasSuffix(cn, ".SubAmount") {
-					continue
-				}
-				var inLoops []*cfgx.Loop
-				for _, l := range loops {
-					if l.Body[b] {
-						inLoops = append(inLoops, l)
+		// the update may sit in a helper called from inside the loop: every frame is searched; the loops that
+		// contain the update are those of the helper around the store and those of the enclosing frames around
+		// the calls that lead there; a helper's parameter is followed to the caller's argument
+		for _, fr := range frames(r, anchor) {
+			f := fr.Fn
+			fns := fr.Fns(anchor)
+			res := r.Resolver(f)
+			for _, b := range f.Blocks {
+				for _, ins := range b.Instrs {
+					st, ok := ins.(*ssa.Store)
+					if !ok {
+						continue
 					}
-				}
-				if len(inLoops) == 0 {
-					continue
-				}
-				n++
-				cnt++
-				field := fieldPath(fa)
-				key := core.Key(id, name, fmt.Sprintf("%s update in loop#%d", field, cnt))
-				// operands (one nested level through conversions / field reads of the operand)
-				var bad *ssa.Phi
-				var visit func(v ssa.Value, d int)
-				visit = func(v ssa.Value, d int) {
-					if d > 3 || bad != nil {
-						return
+					fa, ok := st.Addr.(*ssa.FieldAddr)
+					if !ok {
+						continue
 					}
-					switch x := v.(type) {
-					case *ssa.Phi:
-						for _, l := range inLoops {
-							if x.Block() == l.Header {
-								// carried around a loop that contains the update
-								bad = x
+					call, ok := st.Val.(*ssa.Call)
+					if !ok {
+						continue
+					}
+					cn, _ := res.CalleeName(&call.Call)
+					if !strings.HasSuffix(cn, ".Add") && !strings.HasSuffix(cn, ".AddAmount") && !strings.HasSuffix(cn, ".Sub") && !strings.HasSuffix(cn, ".SubAmount") {
+						continue
+					}
+					inLoops := make([][]*cfgx.Loop, len(fns))
+					any := false
+					for lvl := range fns {
+						at := fr.At(lvl, st)
+						for _, l := range cfgx.Loops(fns[lvl]) {
+							if l.Body[at.Block()] {
+								inLoops[lvl] = append(inLoops[lvl], l)
+								any = true
 							}
 						}
-						if bad == nil {
-							// the value leaving an inner accumulation loop: look at what it was started from
-							for _, e := range x.Edges {
-								if _, isPhi := e.(*ssa.Phi); isPhi {
-									visit(e, d+1)
+					}
+					if !any {
+						continue
+					}
+					n++
+					cnt++
+					field := fieldPath(fa)
+					key := core.Key(id, name, fmt.Sprintf("%s update in loop#%d", field, cnt))
+					// operands (one nested level through conversions / field reads of the operand)
+					var bad *ssa.Phi
+					var visit func(v ssa.Value, lvl, d int)
+					visit = func(v ssa.Value, lvl, d int) {
+						if d > 5 || bad != nil {
+							return
+						}
+						switch x := v.(type) {
+						case *ssa.Phi:
+							for _, l := range inLoops[lvl] {
+								if x.Block() == l.Header {
+									// carried around a loop that contains the update
+									bad = x
 								}
 							}
-						}
-					case *ssa.Field:
-						visit(x.X, d+1)
-					case *ssa.ChangeType:
-						visit(x.X, d+1)
-					case *ssa.Convert:
-						visit(x.X, d+1)
-					case *ssa.Call:
-						for _, a := range x.Call.Args {
-							visit(a, d+1)
+							if bad == nil {
+								// the value leaving an inner accumulation loop: look at what it was started from
+								for _, e := range x.Edges {
+									if _, isPhi := e.(*ssa.Phi); isPhi {
+										visit(e, lvl, d+1)
+									}
+								}
+							}
+						case *ssa.Parameter:
+							if lvl > 0 {
+								args := fr.Chain[lvl-1].Common().Args
+								for k, q := range fns[lvl].Params {
+									if q == x && k < len(args) {
+										visit(args[k], lvl-1, d+1)
+									}
+								}
+							}
+						case *ssa.Field:
+							visit(x.X, lvl, d+1)
+						case *ssa.ChangeType:
+							visit(x.X, lvl, d+1)
+						case *ssa.Convert:
+							visit(x.X, lvl, d+1)
+						case *ssa.Call:
+							for _, a := range x.Call.Args {
+								visit(a, lvl, d+1)
+							}
 						}
 					}
-				}
-				args := call.Call.Args
-				for i, a := range args {
-					if i == 0 {
-						continue // receiver: the aggregate's previous value
+					args := call.Call.Args
+					for k, a := range args {
+						if k == 0 {
+							continue // receiver: the aggregate's previous value
+						}
+						visit(a, len(fns)-1, 0)
 					}
-					visit(a, 0)
-				}
-				if bad == nil {
-					r.Discharge(id, key, r.P.Pos(st.Pos()), "the amount added inside the loop is not a total carried around that loop")
-				} else {
-					r.Violate(id, key, r.P.Pos(st.Pos()), fmt.Sprintf("%s adds a running total (%s) to %s inside a loop around which that total is itself carried without being reset: what earlier iterations contributed is added again in every later iteration, so the aggregate exceeds the sum of the individual changes", name, bad.Comment, field))
+					if bad == nil {
+						r.Discharge(id, key, r.P.Pos(st.Pos()), "the amount added inside the loop is not a total carried around that loop")
+					} else {
+						r.Violate(id, key, r.P.Pos(st.Pos()), fmt.Sprintf("%s adds a running total (%s) to %s inside a loop around which that total is itself carried without being reset: what earlier iterations contributed is added again in every later iteration, so the aggregate exceeds the sum of the individual changes", name, bad.Comment, field))
+					}
 				}
 			}
 		}
@@ -836,53 +856,80 @@ func setsFreshInHelper(r *core.Run, c ssa.CallInstruction, base ssa.Value, want 
 func ruleRemoveAfterSettle(r *core.Run, id string) {
 	n := 0
 	for _, fnName := range []string{"sao/keeper.msgServer.Terminate", "model/keeper.Keeper.UpdateMeta"} {
-		fn := r.Func(id, fnName)
-		if fn == nil {
+		anchor := r.Func(id, fnName)
+		if anchor == nil {
 			continue
 		}
-		term := blocksCallingDeep(r, fn, "model/keeper.Keeper.TerminateOrder", 0)
-		for b := range blocksCallingDeep(r, fn, "sao/types.ModelKeeper.TerminateOrder", 0) {
-			term[b] = true
-		}
-		rem := blocksCallingDeep(r, fn, "order/keeper.Keeper.RemoveShard", 0)
-		for b := range blocksCallingDeep(r, fn, "model/types.OrderKeeper.RemoveShard", 0) {
-			rem[b] = true
-		}
-		for b := range blocksCallingDeep(r, fn, "sao/types.OrderKeeper.RemoveShard", 0) {
-			rem[b] = true
-		}
 		cnt := 0
-		for _, l := range cfgx.Loops(fn) {
-			has := false
-			for b := range term {
-				if l.Body[b] {
-					has = true
-				}
-			}
-			if !has {
-				continue
-			}
-			n++
-			cnt++
-			key := core.Key(id, fnName, fmt.Sprintf("settlement loop#%d", cnt))
-			var bad *ssa.BasicBlock
-			for b := range rem {
-				if l.Body[b] {
-					bad = b
-				}
-			}
-			if bad == nil {
-				r.Discharge(id, key, r.P.FuncPos(fn), "no shard record is removed inside the loop that settles the model's orders")
-			} else {
-				pos := r.P.FuncPos(fn)
-				for _, ins := range bad.Instrs {
-					if c, ok := ins.(ssa.CallInstruction); ok && c.Pos().IsValid() {
-						pos = r.P.Pos(c.Pos())
+		// the settlement loop may sit in a helper extracted from the function: every frame is searched; a call of a
+		// helper that (somewhere) settles / removes counts as doing so
+		for _, fr := range frames(r, anchor) {
+			fn := fr.Fn
+			term := blocksReaching(r, fn, "model/keeper.Keeper.TerminateOrder", "sao/types.ModelKeeper.TerminateOrder")
+			rem := blocksReaching(r, fn, "order/keeper.Keeper.RemoveShard", "model/types.OrderKeeper.RemoveShard", "sao/types.OrderKeeper.RemoveShard")
+			for _, l := range cfgx.Loops(fn) {
+				has := false
+				for b := range term {
+					if l.Body[b] {
+						has = true
 					}
 				}
-				r.Violate(id, key, pos, fnName+" removes shard records inside the loop that settles the model's orders one by one: an order and its renewal orders list the same shards, the renewal order (settled first) skips them because they are still in the older order's period, and when the older order is settled the records are gone — their capacity, collateral and worker bookings are never released")
+				if !has {
+					continue
+				}
+				n++
+				cnt++
+				key := core.Key(id, fnName, fmt.Sprintf("settlement loop#%d", cnt))
+				var bad *ssa.BasicBlock
+				for b := range rem {
+					if l.Body[b] {
+						bad = b
+					}
+				}
+				if bad == nil {
+					r.Discharge(id, key, r.P.FuncPos(fn), "no shard record is removed inside the loop that settles the model's orders")
+				} else {
+					pos := r.P.FuncPos(fn)
+					for _, ins := range bad.Instrs {
+						if c, ok := ins.(ssa.CallInstruction); ok && c.Pos().IsValid() {
+							pos = r.P.Pos(c.Pos())
+						}
+					}
+					r.Violate(id, key, pos, fnName+" removes shard records inside the loop that settles the model's orders one by one: an order and its renewal orders list the same shards, the renewal order (settled first) skips them because they are still in the older order's period, and when the older order is settled the records are gone — their capacity, collateral and worker bookings are never released")
+				}
 			}
 		}
 	}
 	r.Floor("settlement_loops", n, 2)
+}
+
+// blocksReaching: blocks of fn with a call of one of the named callees — directly, through a module wrapper that always
+// calls it, or through a transparent helper that contains such a call anywhere.
+func blocksReaching(r *core.Run, fn *ssa.Function, names ...string) map[*ssa.BasicBlock]bool {
+	out := map[*ssa.BasicBlock]bool{}
+	for _, nm := range names {
+		for b := range blocksCallingDeep(r, fn, nm, 0) {
+			out[b] = true
+		}
+	}
+	for _, b := range fn.Blocks {
+		for _, ins := range b.Instrs {
+			c, ok := ins.(ssa.CallInstruction)
+			if !ok {
+				continue
+			}
+			h := c.Common().StaticCallee()
+			if h == nil || h == fn || !r.P.Transparent(h) {
+				continue
+			}
+			for _, g := range transparentClosure(r, h) {
+				for _, nm := range names {
+					if len(callsIn(r, g, nm)) > 0 {
+						out[b] = true
+					}
+				}
+			}
+		}
+	}
+	return out
 }
